@@ -57,9 +57,17 @@ def queries(tier):
                 if len(picked) >= per_mod:
                     break
         for q in picked:
-            for be in ("direct", "generic", "x86asm"):
+            for be in ("direct", "generic", "x86asm") + (("c32",) if mid in ("C02", "C07") else ()):
                 qs.append(clone(q, be, "cfg"))
             qs.append(clone(q, "generic_check", "checker", checker=True))
+    # the byte-range primitives every mode is built from, aliased (in-place) forms, on all five back ends against the one byte-array model
+    c08 = importlib.import_module("checks.C08")
+    for q in c08.queries("quick"):
+        if q.name.startswith("bytes:") and "inplace" in q.name:
+            q2 = copy.copy(q)
+            q2.name = "cfg-bytes:" + q.name[len("bytes:"):]
+            q2.group = "cfg-bytes"
+            qs.append(q2)
     # pre-computed initial values on every back end (integrated form: real permutation, real tables)
     c03 = importlib.import_module("checks.C03")
     c04 = importlib.import_module("checks.C04")
